@@ -869,8 +869,12 @@ PARTIAL = ('The proof covers lopdf\'s own loops, recursion, budgets, limits, ind
            'weezl, encoding_rs), the real stack limit and allocator (recursion depth is an explicit depth argument bounded by '
            'the 256-level limits, the allocation request of get_pages is an explicit annotation), wall-clock.  Stream filter '
            'decoding inside get_page_content, the ToUnicode CMap parser behind get_font_encoding and Content::decode + text '
-           'decoding behind extract_text are the ground of C04/C09/C14/C15/C16: they enter the C13 theorems as functions that '
-           'return (Section variables), and extract_text is tied by outcome class only.')
+           'decoding behind extract_text enter the older C13 theorems as functions that return (Section variables); since the '
+           'composition round they are ALSO instantiated with the models of C04/C09/C14/C15/C16 in an outcome monad that can '
+           'express their panics (C13_get_page_content_total_real: no assumption beyond "flate2 / weezl return"; '
+           'C13_extract_text_total_real_partial: additionally encoding_rs UTF_16BE.decode returns, and nom returns on the one '
+           'corner of the CMap grammar the model does not cover -- a CIDSystemInfo dictionary with nested values).  '
+           'extract_text is tied by outcome class only.')
 
 SPEC = {
     'gen_parts': ['Consts', 'QueryC', 'Tables', 'Filters'],
@@ -936,7 +940,10 @@ MANIFEST = {
                   'get_named_destinations, get_outlines, get_toc and the graph part of extract_text return a value or an error '
                   'within an explicit fuel bound polynomial in the number of objects and their nesting height (measure arguments over '
                   'DEREF_LIMIT, the visited set, the reference budgets); size_hint never promises more than it yields nor less than '
-                  'the iteration budget allows and the allocation request of get_pages is <= |objects| + 1; the unrepaired walkers '
+                  'the iteration budget allows and the allocation request of get_pages is <= |objects| + 1; composed with C09/C04/C14/C15/C16: '
+                  'get_page_content with the real filter chain (value model + site-explicit models of ASCII85 and the PNG predictor) '
+                  'and extract_text_chunks with the real CMap hand-over, Content::decode, operation loop and decode_text answer neither '
+                  'Panic nor OutOfFuel on any document, for any total flate2 / weezl decoders (none with the Gallina decoders); the unrepaired walkers '
                   '(QueryV0) are proved to panic or to diverge for every fuel on 3-5 object witnesses.  Limits and the shapes of the '
                   'limit tests are re-read from the Rust source on every run; the model is tied to the implementation by isolated-'
                   'worker differential runs (values, error class, panic, hang, abort) on typed-chaos graphs.',
